@@ -277,6 +277,19 @@ def allnone_models(r, n):
     return out
 
 
+def prim_choice_cases(r, n):
+    """the compound-over-primitives models of the C03b check, encode -> decode and through JSON text"""
+    import c03b
+    out = []
+    for m in c03b.prim_choice_models(r, n):
+        cases = []
+        for c in m["cases"]:
+            for fac in ("dict", "filter_none"):
+                cases.append({"recipe": c["recipe"], "root": "P", "factory": fac, "ignore": False})
+        out.append(dict(m, cases=cases))
+    return out
+
+
 def _val(tp, text):
     if tp == "int":
         return int(text)
@@ -386,7 +399,7 @@ def run(ck: Check):
         models.append({"desc": desc, "src": genmodels.render_source(desc), "classes": [c["name"] for c in desc["classes"]],
                        "enums": [], "cases": [{"recipe": rec, "root": desc["root"], "factory": fac, "ignore": False}], "witness": cls})
     models += special_models(ck.rng) + tuple_models(ck.rng) + best_match_models(ck.rng, ck.n(12, 200))
-    models += derived_models(ck.rng, ck.n(12, 200)) + allnone_models(ck.rng, ck.n(18, 300))
+    models += derived_models(ck.rng, ck.n(12, 200)) + allnone_models(ck.rng, ck.n(18, 300)) + prim_choice_cases(ck.rng, ck.n(20, 300))
     models += gen_cases(ck, n_models, per_model)
     res = run_impl("impl_c04.py", {"models": [{k: m[k] for k in ("src", "classes", "enums", "cases")} for m in models]}, timeout=1500)
     unsupported = [(i, m["unsupported"]) for i, m in enumerate(res["models"]) if m["unsupported"]]
